@@ -866,6 +866,16 @@ def run(chk):
                 "(coherent and, tagged, with an identifier reused under another name), operands swapped, 8 cancompare flag sets on dumped "
                 "DBC files. non-trivial = the pair differs in at least one compared property or is reordered; distinct by (encoded pair, ignore)")
     ok = chk.build_and_audit()
+    chk.assumptions += [
+        "envelope of the theorems (visible hypotheses): frame and ECU names unique per matrix, signal and signal-group names unique per "
+        "frame, dict keys unique (wf_matrix); identifiers unique in the second operand for 'no difference -> agree' (refuted without: "
+        "C13_no_difference_iff_agree_refuted_without_unique_ids); `coherent a b` for the swap theorem (refuted without: "
+        "C13_swap_refuted_without_coherence); the generator stays inside the first two and tags pairs outside the third",
+        "normal form of model/Compare.v: texts interned as integers (equality only), factor/offset/min/max as bit patterns of float(x) with "
+        "-0.0 = 0.0 (NaN excluded), receivers as (name, name.strip()), extended multiplexing / is_float / frame receivers are not read by "
+        "compare.py and not part of the normal form",
+        "the model follows compare_signal as repaired by fixes/C13_signal_comment.patch and fixes/C13_receiver_strip.patch",
+    ]
     cm = core.import_impl()
     C = cm.canmatrix
     import canmatrix.compare as cmp
